@@ -52,6 +52,10 @@ pub fn start_job(command: Arc<Command>) -> (Job, JoinHandle<()>) {
 
 			'main: loop {
 				select! {
+					// observe the end of the process before handling the next control, so that controls
+					// (and hooks querying the state) never act on a stale `Running` after a busy period
+					biased;
+
 					result = command_state.wait(), if command_state.is_running() => {
 						trace!(?result, ?command_state, "got wait result");
 						match async {
